@@ -1,6 +1,6 @@
 (** C01/Props.v — property theorems only.  Each is closed by [exact] of a lemma of the proof files. *)
 From Coq Require Import ZArith.
-From EV Require Import Base.Reader Base.ReaderFacts C01.Model C01.LexModel C01.LuaLexer C01.Pump C01.Proofs C01.LexProofs C01.LuaLexerProofs C01.PumpProofs C01.MainProofs.
+From EV Require Import Base.Reader Base.ReaderFacts C01.Model C01.LexModel C01.LuaLexer C01.Pump C01.Proofs C01.LexProofs C01.LuaLexerProofs C01.PumpProofs C01.MainProofs C01.DocPump C01.DocPumpProofs.
 Local Open Scope N_scope.
 
 (** (d) LuaTreeBuilder::build + LuaGreenNodeBuilder (after the repair of [finish]):
@@ -61,14 +61,15 @@ Theorem mark_level_exact : forall (toks : list leaf) (doc : bool) (ops : list op
   snd (p_m st) = depth (fst (p_m st)).
 Proof. exact PumpProofs.mark_level_exact. Qed.
 
-(** markers_balanced, the part that is proved: when such a client ends with mark level 0, live starts and ends
-    balance.  (FULL statement, not proved: every prefix of the event list has at least as many live starts as ends,
-    i.e. [prefix_ok (fst (p_m st)) 0 = true]; it needs a matching discipline between raw [push_node_end] calls and
-    the markers they close, which the model does not track.  It is evaluated on every recorded real trace.) *)
-Theorem markers_balanced_partial : forall (toks : list leaf) (doc : bool) (ops : list op) (st : pst),
+(** markers_balanced — for such a client, at every moment: no prefix of the event list contains more NodeEnds than
+    non-erased NodeStarts (so the event list is well-bracketed once the None starts are erased, as soon as the mark
+    level is back to 0), and the mark level is the number of nodes still open.  The discipline [p_disc] includes:
+    a NodeEnd is pushed (by complete or by error recovery) only while the mark level is positive, and a node that is
+    undone has not been closed by a later NodeEnd ([unclosed]); both are evaluated on every recorded real trace. *)
+Theorem markers_balanced : forall (toks : list leaf) (doc : bool) (ops : list op) (st : pst),
   exec_ops false (pst_new toks doc) ops = Some st -> p_disc st = true ->
-  snd (p_m st) = 0%Z -> depth (fst (p_m st)) = 0%Z.
-Proof. intros toks doc ops st H Hd H0. rewrite <- (PumpProofs.mark_level_exact toks doc ops st H Hd). exact H0. Qed.
+  prefix_ok (fst (p_m st)) 0 = true /\ snd (p_m st) = depth (fst (p_m st)).
+Proof. exact PumpProofs.markers_balanced. Qed.
 
 (** pump_emits_all — if the lexer's tokens tile [0,total), none has a kind the pump drops (None, TkEof), the client
     respected the discipline and every doc-parser run re-emitted a tiling of the range it was handed ([p_doc_ok], the
@@ -80,6 +81,43 @@ Theorem pump_emits_all : forall (toks : list leaf) (total : N) (doc : bool) (ops
   exists a, tiles (firstn (p_index st) (p_tokens st)) 0 a /\ tiles (tokens_of (fst (p_m st))) 0 a /\
             (p_inited st = true -> p_current st = TK_TkEof -> a = total).
 Proof. exact PumpProofs.pump_emits_all. Qed.
+
+(** (c') the token pump of LuaDocParser (init / bump / calc_next_current_token / eat_current_and_lex_next / lex_token /
+    re_calc_detail / re_calc_cast_type / bump_to_end / set_current_token_kind) over an ABSTRACT doc lexer:
+
+    doc_pump_tiles — for every comment group whose tokens are non-empty and tile [G0,G1), every sequence of pump
+    primitives and marker operations, and every stream of doc-lexer results: if the results respected the Reader
+    discipline ([d_lex_ok]: each token has length >= 1, stays inside the comment token being re-lexed, and its kind
+    is not None/TkEof), the client respected the discipline ([d_disc]: re_calc_* only right after a token was lexed
+    from a live reader, retagging only a pending token to a valid kind, bump_to_end only on a pending token), and
+    the run ended with current = TkEof (the only way parse_docs leaves its loop), then the tokens the doc parser
+    pushed tile [G0,G1) in order. *)
+Theorem doc_pump_tiles : forall (G1 G0 : N) (toks : list leaf) (answers : list (tkind * N)) (ops : list pop) (st : dst),
+  nonempty_toks toks -> tiles toks G0 G1 ->
+  doc_run toks answers ops = Some st ->
+  d_disc st = true -> d_lex_ok st = true -> d_cur st = TK_TkEof ->
+  tiles (deats (d_out st)) G0 G1.
+Proof. exact DocPumpProofs.doc_pump_tiles. Qed.
+
+(** hence the obligation [p_doc_ok] of pump_emits_all / C01_main (each doc-parser run re-emits a tiling of the range it
+    was handed) is met by every run of the modelled doc pump: the conjunct that [parse_comments] accumulates is true.
+    What remains checked on traces only: that the real doc parser's run IS such a run (replay), and the three
+    hypotheses above for the real doc lexer and the real doc grammar. *)
+Theorem doc_obligation_from_pump : forall (group prefix trailing : list leaf) (answers : list (tkind * N)) (ops : list pop) (st : dst) (a0 a1 : N),
+  split_trailing group = (prefix, trailing) -> prefix <> [] -> tiles group a0 a1 -> nonempty_toks prefix ->
+  doc_run prefix answers ops = Some st -> d_disc st = true -> d_lex_ok st = true -> d_cur st = TK_TkEof ->
+  tilesb (deats (d_out st)) (fst (doc_range group prefix)) (snd (doc_range group prefix)) = true.
+Proof.
+  intros group prefix trailing answers ops st a0 a1 Hs Hne Ht Hn Hr Hd Hk Hc.
+  pose proof (split_trailing_app _ _ _ Hs) as Hg. rewrite Hg in Ht.
+  destruct (tiles_app_inv _ _ _ _ Ht) as (m & Hp & _).
+  apply LexProofs.tilesb_tiles. unfold doc_range. cbn [fst snd].
+  destruct prefix as [|p0 pr]; [congruence|].
+  assert (Hstart : group_start group = a0).
+  { rewrite Hg. cbn [app]. eapply tiles_start. cbn [app] in Ht. exact Ht. }
+  rewrite Hstart, (tiles_end (p0 :: pr) a0 m ltac:(discriminate) Hp).
+  eapply DocPumpProofs.doc_pump_tiles; eauto.
+Qed.
 
 (** C01_main — the composition: any contract-respecting lexer step, any disciplined client that stops at Eof with
     the doc obligation met, any run of the builder that does not panic: the leaves of the tree tile the input and,
@@ -117,6 +155,25 @@ Example lexer_example :
   lua_tokenize (level_features L_Lua54) (fun _ => false) (fun _ => false) [97; 0; 98; 10; 45; 45; 91; 61; 91; 120]
   = [(TK_TkName, (0, 1)); (TK_TkUnknown, (1, 1)); (TK_TkName, (2, 1)); (TK_TkEndOfLine, (3, 1)); (TK_TkLongComment, (4, 6))].
 Proof. vm_compute. reflexivity. Qed.
+
+(** non-vacuity of the doc pump theorem: the run of the doc parser on ["---@type string"] (one comment token 0..15):
+    init bump, then the bumps of parse_tag_type with the real lexer answers; re_calc_detail on a second run *)
+Example doc_pump_example :
+  match doc_run [(TK_TkShortComment, (0, 15))]
+                [(TK_TkDocStart, 4); (TK_TkTagType, 4); (TK_TkWhitespace, 1); (TK_TkName, 6)]
+                [PMarker (DMark SK_Comment); PBump 3; PMarker (DMark SK_DocTagType); PBump 0; PBump 0] with
+  | Some st => d_disc st = true /\ d_lex_ok st = true /\ d_cur st = TK_TkEof /\
+               deats (d_out st) = [(TK_TkDocStart, (0, 4)); (TK_TkTagType, (4, 4)); (TK_TkWhitespace, (8, 1)); (TK_TkName, (9, 6))]
+  | None => False
+  end
+  /\ match doc_run [(TK_TkShortComment, (0, 9))]
+                  [(TK_TkNormalStart, 3); (TK_TkName, 2); (TK_TkDocDetail, 6)]
+                  [PBump 3; PRecalcDetail; PBump 3; PBump 3] with
+     | Some st => d_disc st = true /\ d_lex_ok st = true /\ d_cur st = TK_TkEof /\
+                  deats (d_out st) = [(TK_TkNormalStart, (0, 3)); (TK_TkDocDetail, (3, 6))]
+     | None => False
+     end.
+Proof. vm_compute. repeat split. Qed.
 
 (** non-vacuity of the pump theorems: the operation sequence of [parse_chunk] on the tokens of ["a -- c\nb"]
     (doc off): init, mark, bumps; the hypotheses hold and the events tile [0,8). *)
